@@ -1450,6 +1450,19 @@ func init() {
 			top0 := env.fr.q.get(ref, "$top")
 			return SV{T: types.Typ[types.Bool], V: Val{C: []string{"(or (= " + p + " 0) (>= " + p + " " + top0 + "))"}}}, nil
 		},
+		// srcof(s): the name of the file whose contents the string s was read or derived from (ghost; defined by the
+		// transfer rules of the C19 driver and the contracts that mention it)
+		"srcof": func(env *SpecEnv, x *ast.CallExpr) (SV, error) {
+			a, err := env.eval(x.Args[0])
+			if err != nil {
+				return SV{}, err
+			}
+			if len(a.V.C) != 1 || env.sortOf(a) != "Str" {
+				return SV{}, fmt.Errorf("srcof() needs a string")
+			}
+			r := env.fr.uf("g_src", []string{a.V.C[0]}, []string{"Str"}, "Str")
+			return SV{T: types.Typ[types.String], V: Val{C: []string{r}}}, nil
+		},
 		// succeeded(): the error result is nil (true for a function without an error result)
 		"succeeded": func(env *SpecEnv, x *ast.CallExpr) (SV, error) {
 			if sv, ok := env.names["err"]; ok && len(sv.V.C) >= 1 {
